@@ -1065,6 +1065,14 @@ class BuiltinsMixin(object):
         if r is not None:
             return r
         if any(isinstance(a, App) and a.op == 'star' for a in args):
+            if isinstance(fv, BoundB) and len(args) == 1 and not kw and \
+                    fv.name in ('intersection', 'union', 'difference') and \
+                    self.is_setlike(fv.recv, path):
+                # s.intersection(*Xs): s folded with every member of Xs
+                return [(path, App('setfold', Const(fv.name),
+                                   self.snapshot_deep(fv.recv, path),
+                                   self.snapshot_deep(args[0].args[0],
+                                                      path)))]
             self.event(path, 'call', fv, None, (tuple(args), tuple(kw)), node)
             return [(path, App('call', fv, Tup(args)))]
         if isinstance(fv, FRef):
@@ -1516,6 +1524,9 @@ class BuiltinsMixin(object):
             self.obs('sort', (args[0],), path, node)
         self.event(path, 'sorted', args[0], None,
                    (kwd.get('key', Const(None)),), node)
+        for (q, v) in res:
+            if isinstance(v, Obj):
+                q.heap[v.oid].reorder += ('sorted',)
         return res
 
     def bi_reversed(self, args, kw, path, node):
@@ -1795,7 +1806,7 @@ class BuiltinsMixin(object):
                     'symmetric_difference_update', 'popitem', 'setdefault'):
             snap = self.snapshot(recv, path)
             if name in ('sort', 'reverse') and not gens:
-                pass        # order is not modelled
+                h.reorder += (name,)     # the order itself is not modelled
             elif name == 'clear' and not gens:
                 h.parts = []
             else:
